@@ -345,12 +345,16 @@ def enum_rules(fx, ck, comp, pre):
             gate = None   # bool switch whose true edge dominates the reverse store
             for bi in body:
                 t = f.blocks[bi]["t"]
-                if t[0] == "switch" and t[1][0] in ("c", "m") and fx.tys(f.locals[t[1][1][0]]) == "bool" and edge_dominates(f, t[3], rb):
+                if t[0] == "switch" and t[1][0] in ("c", "m") and fx.tys(f.locals[t[1][1][0]]) == "bool":
+                    zero = [tb for v_, tb in t[2] if v_ == "0"]
+                    pol = 1 if edge_dominates(f, t[3], rb) else (0 if zero and edge_dominates(f, zero[0], rb) else None)
+                    if pol is None:
+                        continue
                     # drop flags (bools initialised at function entry by drop elaboration) are not decisions of the source
                     if any(db == 0 for db, si, rv in f.defs().get(t[1][1][0], [])):
                         continue
                     if gate is None or f.dominates(bi, gate[0]):
-                        gate = (bi, t[1][1][0])
+                        gate = (bi, t[1][1][0], pol)
             numeric = set()
             if gate is not None:
                 gl = gate[1]
@@ -359,7 +363,7 @@ def enum_rules(fx, ck, comp, pre):
                 def true_assigned(blocks):
                     for b in blocks:
                         for s in f.blocks[b]["s"]:
-                            if s[0] == "a" and not s[1][1] and s[1][0] in ganc and s[2][0] == "use" and s[2][1][0] == "k" and M.const_int(s[2][1]) == 1:
+                            if s[0] == "a" and not s[1][1] and s[1][0] in ganc and s[2][0] == "use" and s[2][1][0] == "k" and M.const_int(s[2][1]) == gate[2]:
                                 return True
                     return False
                 for v in domain:
@@ -386,57 +390,46 @@ def enum_rules(fx, ck, comp, pre):
             ck.instance("E2.reverse-gate", "%s: reverse mapping" % f.path, F.short_span(f.span), ok=False)
             ck.finding("E2.reverse-gate", "E2.reverse-gate/%s/none" % f.path, F.short_span(f.span), "`%s` emits no reverse mapping at all" % f.path)
             numeric = set()
-        # E6: counter
+        # E6: the counter and every write of it
+        add_locals = {s_[1][0] for bl in f.blocks for s_ in bl["s"] if s_[0] == "a" and not s_[1][1] and s_[2][0] == "bin" and
+                      s_[2][1].startswith("Add") and (M.const_int(s_[2][3]) == 1 if s_[2][3][0] == "k" else False)}
+        fadd = {s_[1][0] for bl in f.blocks for s_ in bl["s"] if s_[0] == "a" and not s_[1][1] and s_[2][0] == "bin" and s_[2][1].startswith("Add")
+                and s_[2][3][0] == "k" and isinstance(s_[2][3][2], dict) and s_[2][3][2].get("float") in ("1", "1.0", 1.0)}
         counters = set()
-        for bi in body:
-            for s in f.blocks[bi]["s"]:
-                if s[0] == "a" and not s[1][1] and f.var_name(s[1][0]) and fx.tys(f.locals[s[1][0]]) in ("i64", "i32", "f64", "u32", "u64", "isize", "usize"):
-                    lv = leaves(f, s[2][1]) if s[2][0] == "use" else set()
-                    if any(x[0] == "bin" and x[1] == "Add" for x in lv):
-                        counters.add(s[1][0])
-        counted = set()
-        wblocks = set()
-        for bi in body:
-            for s in f.blocks[bi]["s"]:
-                if s[0] == "a" and not s[1][1] and s[1][0] in counters and s[2][0] == "use":
-                    lv = leaves(f, s[2][1])
-                    # advanced from the initialiser: an operand that is not the counter itself
-                    flat = set()
-                    for x in lv:
-                        if x[0] == "bin":
-                            flat |= set(x[2]) | set(x[3])
-                        else:
-                            flat.add(x)
-                    if any(x[0] in ("field", "call", "other") or (x[0] == "bin") for x in flat if x != ("const", 1)) and \
-                            not all(x[0] == "const" for x in flat):
-                        # exclude the plain `counter += 1`
-                        names = {f.var_name(l) for l in ancestors(f, s[1][0])}
-                        wblocks.add(bi)
-        # keep only writes that do not derive from the counter alone
         wb2 = set()
-        for bi in wblocks:
-            for s in f.blocks[bi]["s"]:
-                if s[0] == "a" and not s[1][1] and s[1][0] in counters and s[2][0] == "use" and s[2][1][0] in ("c", "m"):
-                    anc = ancestors(f, s[2][1][1][0]) - {s[1][0]}
-                    srcs = {l for l in anc if l not in counters}
-                    if any(fx.tys(f.locals[l]).startswith("&") or "Literal" in fx.tys(f.locals[l]) or "f64" == fx.tys(f.locals[l]) for l in srcs):
-                        wb2.add(bi)
+        for bi in body:
+            for s_ in f.blocks[bi]["s"]:
+                if s_[0] == "a" and not s_[1][1] and f.var_name(s_[1][0]) and s_[2][0] in ("use", "agg"):
+                    srcs = set()
+                    for pl in F.rvalue_places(s_[2]):
+                        srcs |= ancestors(f, pl[0])
+                    if srcs & (add_locals | fadd):
+                        counters.add(s_[1][0])
+            t_ = f.blocks[bi]["t"]
+            if t_[0] == "call" and not t_[3][1] and f.var_name(t_[3][0]) and (t_[1].get("d") or "").endswith(("::map", "::and_then")):
+                # `counter = literal(init).map(|n| n + 1.0)`: the closure adds one
+                for a in t_[2]:
+                    if a[0] in ("c", "m") and "closure" in fx.tys(f.locals[a[1][0]]):
+                        counters.add(t_[3][0])
+        for bi in body:
+            for s_ in f.blocks[bi]["s"]:
+                if s_[0] == "a" and not s_[1][1] and s_[1][0] in counters:
+                    wb2.add(bi)
+            t_ = f.blocks[bi]["t"]
+            if t_[0] == "call" and not t_[3][1] and t_[3][0] in counters:
+                wb2.add(bi)
+        counted = set()
         if ck.anchor(bool(counters), pre + "auto-increment counter in " + f.path):
-            for v in variants:
+            forms = sorted(numeric) if numeric else domain
+            for v in forms:
                 if any(arm_reach(sw, v) & wb2 for sw in sws):
                     counted.add(v)
-            num_forms = {v for v in numeric if v not in ("None",)}
-            if not sws or len(num_forms) == len(variants):
-                # numeric belief is not syntactic (run-time test): the counter must not be syntactic either
-                ok = not wb2 or len(counted) == len(variants)
-                diff = sorted(set(variants) - counted)[:3]
-            else:
-                ok = num_forms == counted
-                diff = sorted(num_forms ^ counted)
-            ck.instance("E6.auto-increment", "%s: numeric forms %s, counter advanced from %s" % (f.path, sorted(num_forms)[:6], sorted(counted)[:6]),
+            stale = [v for v in forms if v not in counted]
+            ok = not stale
+            ck.instance("E6.auto-increment", "%s: forms treated as numeric %s; counter written for %s" % (f.path, forms[:6], sorted(counted)[:6]),
                         F.short_span(f.span), ok=ok)
             if not ok:
-                ck.finding("E6.auto-increment", "E6.auto-increment/%s/%s" % (f.path, "+".join(diff)), F.short_span(f.span),
-                           "`%s` treats initialisers of the forms %s as numeric but advances the auto-increment counter only from %s: after a member "
-                           "of form %s the numbering restarts from the stale counter (`enum G { A = -10, B }` gives B = 0, the emit gives -9)"
-                           % (f.path, sorted(num_forms), sorted(counted), diff))
+                ck.finding("E6.auto-increment", "E6.auto-increment/%s/%s" % (f.path, "+".join(stale[:4])), F.short_span(f.span),
+                           "`%s` treats initialisers of the forms %s as numeric (they get a reverse mapping) but leaves the auto-increment counter "
+                           "untouched after a member of form %s: the next member is numbered from the stale counter (`enum G { A = -10, B }` gives "
+                           "B = 0, the emit gives -9)" % (f.path, forms[:8], stale[:4]))
